@@ -10,8 +10,8 @@ package archiver
 // repository.Repository on the in-memory backend.
 //
 // Space: initial state /src/{a (file), b (file), d/ (dir), d/c (file of two
-// chunks), l (symlink)}; edit alphabet (28 edits): for each of the files a and
-// d/c {content+mtime only, content+size only, content+ctime only,
+// chunks), l (symlink)}; edit alphabet (30 edits): for each of the files a and
+// d/c {content+mtime only, content+mtime moved backwards, content+size only, content+ctime only,
 // content+inode only, content with NO metadata change (negative control),
 // touch, chmod, delete, rename, file->dir, file->symlink} plus {no-op, add
 // /src/n, add /src/d/n, dir->file, remove dir, symlink->file}; histories of 1
@@ -22,7 +22,7 @@ package archiver
 // and the snapshot exist), which is the situation allBlobsPresent guards.
 //
 // Quick tier: all 1-edit histories in full; 2-edit histories with flags 0 for
-// all 28x28 pairs, and with ignore-ctime resp. ignore-inode for second edits
+// all 30x30 pairs, and with ignore-ctime resp. ignore-inode for second edits
 // that change content; thorough: everything.
 //
 // Oracle, for every backup with a parent for which the premise of the property
@@ -312,6 +312,10 @@ func verifC40Edits() []verifC40Edit {
 		onFile(target, "content+mtime", func(_ *verifC40Entry, _ string, e *verifC40Entry, tick int64) {
 			e.Content, e.MTime = flip(e.Content), 100+tick
 		})
+		onFile(target, "content+mtime-back", func(_ *verifC40Entry, _ string, e *verifC40Entry, tick int64) {
+			// an older revision put back in place (cp -p, rsync -t, tar x): the mtime moves backwards
+			e.Content, e.MTime = flip(e.Content), e.MTime-10-tick
+		})
 		onFile(target, "content+size", func(_ *verifC40Entry, _ string, e *verifC40Entry, tick int64) {
 			e.Content = append(append([]byte(nil), e.Content...), byte('0'+tick))
 		})
@@ -594,7 +598,7 @@ type verifC40History struct {
 func TestVerif_C40(t *testing.T) {
 	r := vh.Start(t, "C40")
 	defer r.Finish()
-	r.Rule("histories of 1..2 edits from a 28-edit alphabet on an in-memory ModelFS, each edit followed by Archiver.Snapshot with the latest snapshot as parent, x ChangeIgnoreFlags {0,ctime,inode,both} x SkipIfUnchanged x (1-edit histories) parent data blobs lost; non-trivial = a backup with a parent for which the premise holds and at least one file existed unchanged-by-metadata in the parent (its content is taken over from the parent) or the parent's blobs are missing")
+	r.Rule("histories of 1..2 edits from a 30-edit alphabet on an in-memory ModelFS, each edit followed by Archiver.Snapshot with the latest snapshot as parent, x ChangeIgnoreFlags {0,ctime,inode,both} x SkipIfUnchanged x (1-edit histories) parent data blobs lost; non-trivial = a backup with a parent for which the premise holds and at least one file existed unchanged-by-metadata in the parent (its content is taken over from the parent) or the parent's blobs are missing")
 	r.Assume("the ModelFS (harness) implements fs.FS faithfully: Stat and ToNode agree; nodes are built like internal/fs builds them, without xattrs/generic attributes",
 		"the chunker polynomial is the fixed test polynomial for all repositories (repository.TestRepositoryWithBackend), i.e. 'same polynomial' holds by construction")
 
